@@ -20,6 +20,7 @@ import (
 	"com.tuntun.rangers/node/src/zzverif/runner"
 	"com.tuntun.rangers/node/src/zzverif/simmap"
 	"com.tuntun.rangers/node/src/zzverif/simrt"
+	"com.tuntun.rangers/node/src/zzverif/simsched"
 )
 
 // C13 — any threshold subset of group members yields the same valid group signature.
@@ -33,14 +34,18 @@ import (
 // iteration order of the share map (instrumented build).
 
 type c13Plan struct {
-	Seed     uint64  `json:"seed"`
-	N        int     `json:"n"`
-	Deliver  []int   `json:"deliver"` // DKG: permutation (with duplicates) of dealer*n+receiver
-	Messages int     `json:"messages"`
-	Arrivals [][]int `json:"arrivals"` // per collector: member indices in arrival order (dups allowed)
-	RandSeed uint64  `json:"rand_seed"`
+	Seed     uint64   `json:"seed"`
+	N        int      `json:"n"`
+	Deliver  []int    `json:"deliver"` // DKG: permutation (with duplicates) of dealer*n+receiver
+	Messages int      `json:"messages"`
+	Arrivals [][]int  `json:"arrivals"` // per collector: member indices in arrival order (dups allowed)
+	RandSeed uint64   `json:"rand_seed"`
 	MapSeeds []uint64 `json:"map_seeds"`
-	Subsets  bool    `json:"subsets"` // enumerate every k-subset (small n)
+	Subsets  bool     `json:"subsets"` // enumerate every k-subset (small n)
+	// Conc > 0: additionally one collector receives the shares from this many concurrently running
+	// message-handler tasks (each with its own decoded copies of the shares) while they also poll it
+	Conc     int    `json:"conc,omitempty"`
+	ConcSeed uint64 `json:"conc_seed,omitempty"`
 }
 
 type c13 struct{}
@@ -59,11 +64,11 @@ func (c13) Budget(tier string) runner.Budget {
 
 func (c13) Describe() runner.Description {
 	return runner.Description{
-		Rule: "each plan: group size n in [3,10] (the dev minimum to the maximum), seeded member ids and per-group secrets; the n*n share pieces produced by the node's DKG member objects are delivered in a seeded order with duplicates; then 1..4 messages are signed by every member and 2..5 collectors receive the shares in seeded arrival orders (dropping up to n-k, duplicates, late arrivals after recovery). Checked: all members derive the same group public key, equal to the sum of the dealers' public keys; every share verifies under the member's public share; the threshold equals ceil(51% n); every collector, under every seeded internal k-subset choice and share-map iteration order, recovers exactly H(m)^s for s = sum of the dealers' secrets, which verifies under the group public key; with fewer than k distinct shares nothing is produced; for n<=7 additionally EVERY k-subset is recovered directly. distinct_nontrivial = distinct (n, arrival-order signature) pairs with more shares than the threshold.",
+		Rule:        "each plan: group size n in [3,10] (the dev minimum to the maximum), seeded member ids and per-group secrets; the n*n share pieces produced by the node's DKG member objects are delivered in a seeded order with duplicates; then 1..4 messages are signed by every member and 2..5 collectors receive the shares in seeded arrival orders (dropping up to n-k, duplicates, late arrivals after recovery). Checked: all members derive the same group public key, equal to the sum of the dealers' public keys; every share verifies under the member's public share; the threshold equals ceil(51% n); every collector, under every seeded internal k-subset choice and share-map iteration order, recovers exactly H(m)^s for s = sum of the dealers' secrets, which verifies under the group public key; with fewer than k distinct shares nothing is produced; for n<=7 additionally EVERY k-subset is recovered directly; in 30% of the plans one more collector is fed by 2-4 concurrently scheduled handler tasks (own decoded copies of the shares) that also poll it: every signature handed out and the final one must be H(m)^s. distinct_nontrivial = distinct (n, arrival-order signature) pairs with more shares than the threshold.",
 		Assumptions: []string{"the reference signature H(m)^s is computed with the repository's Sign on the independently summed secret (BLS uniqueness makes it the only signature valid under the group key; verification soundness itself is property C14, not applicable here)"},
 		Real:        []string{"consensus/logical/group_create.groupNodeInfo (DKG member)", "consensus/groupsig (ShareSeckey, AggregateSeckeys/Pubkeys, Sign, VerifySig, RecoverGroupSignature, Lagrange recovery)", "consensus/model.GroupSignGenerator", "consensus/base.Rand (seeded via hook)"},
 		Stub:        []string{"transport between members (simulated: reorder, duplicate, drop)", "the rest of the node (not booted)"},
-		FaultKinds:  []string{"dkg_reorder", "dkg_duplicate", "share_drop", "share_duplicate", "share_late_after_recovery", "internal_subset_seed", "map_order_seed"},
+		FaultKinds:  []string{"dkg_reorder", "dkg_duplicate", "share_drop", "share_duplicate", "share_late_after_recovery", "internal_subset_seed", "map_order_seed", "concurrent_handlers"},
 	}
 }
 
@@ -106,8 +111,30 @@ func (c13) Gen(seed uint64, tier string) json.RawMessage {
 		p.MapSeeds = append(p.MapSeeds, r.U64()|1)
 	}
 	p.Subsets = p.N <= 7 && r.Chance(0.5)
+	if r.Chance(0.3) {
+		p.Conc, p.ConcSeed = r.Range(2, 4), r.U64()
+	}
 	b, _ := json.Marshal(p)
 	return b
+}
+
+// RacePlan / RaceFrames: race-detector stage (DESIGN.md 13.4) over the concurrent collector.
+func (c13) RacePlan(seed uint64, i int) json.RawMessage {
+	var p c13Plan
+	json.Unmarshal(c13{}.Gen(runner.PlanSeed(seed, "C13-race", i), "quick"), &p)
+	r := simrt.NewRand(runner.PlanSeed(seed, "C13-race-sched", i))
+	p.Conc, p.ConcSeed = 2+i%3, r.U64()
+	p.Messages = 1
+	p.Subsets = false
+	if len(p.Arrivals) > 1 {
+		p.Arrivals = p.Arrivals[:1]
+	}
+	b, _ := json.Marshal(p)
+	return b
+}
+
+func (c13) RaceFrames() []string {
+	return []string{"/src/consensus/model.", "/src/consensus/groupsig"}
 }
 
 func c13Init() {
@@ -271,6 +298,57 @@ func (c13) Exec(raw json.RawMessage, st *simrt.Stats, log *simrt.Log) *simrt.Vio
 				}
 			}
 		}
+		if p.Conc > 0 && mi == 0 {
+			// one collector fed by concurrent message handlers: each task decodes its own copies of the shares
+			// it delivers (as a handler does with the bytes of a message), adds them, and polls the collector
+			gen := model.NewGroupSignGenerator(k)
+			wire := make([][]byte, n)
+			for i := range shares {
+				wire[i] = shares[i].Serialize()
+			}
+			refBytes := ref.Serialize()
+			var cviol *simrt.Violation
+			var names []string
+			var tasks []func()
+			order := r13Order(p.ConcSeed, n)
+			for t := 0; t < p.Conc; t++ {
+				t := t
+				names = append(names, fmt.Sprintf("handler%d", t))
+				tasks = append(tasks, func() {
+					for pos, x := range order {
+						if pos%p.Conc != t {
+							continue
+						}
+						sig := groupsig.DeserializeSign(wire[x])
+						simsched.Yield("c13.add")
+						gen.AddWitnessSign(ids[x], *sig)
+						st.Ops++
+						simsched.Yield("c13.poll")
+						if gen.SignRecovered() {
+							got := gen.GetGroupSign()
+							simsched.Yield("c13.read")
+							if !bytes.Equal(got.Serialize(), refBytes) && cviol == nil {
+								cviol = viol(mi, "recovered-signature-differs", "concurrent-collector", "n=%d k=%d: a handler running concurrently with others was handed a group signature that is not H(m)^s", n, k)
+							}
+							if !gen.VerifyGroupSign(gpk, msg[:]) && cviol == nil {
+								cviol = viol(mi, "recovered-signature-invalid", "concurrent-collector", "the collector's signature does not verify under the group public key while handlers run concurrently")
+							}
+						}
+					}
+				})
+			}
+			res := simsched.Run(simsched.Options{Seed: p.ConcSeed, Policy: "random", MaxPreempt: -1, MaxSteps: 400000}, names, tasks)
+			st.Fault("concurrent_handlers")
+			if res.Panic != nil {
+				return viol(mi, "host-panic", "concurrent-collector", "%v", res.Panic)
+			}
+			if cviol != nil {
+				return cviol
+			}
+			if !gen.SignRecovered() || !bytes.Equal(gen.GetGroupSign().Serialize(), refBytes) {
+				return viol(mi, "recovered-signature-differs", "concurrent-collector-final", "n=%d k=%d: after all %d shares arrived through %d concurrent handlers the collector does not hold H(m)^s", n, k, n, p.Conc)
+			}
+		}
 		if p.Subsets && mi == 0 {
 			// every k-subset
 			idx := make([]int, k)
@@ -346,3 +424,5 @@ func (c13) Shrink(raw json.RawMessage) []json.RawMessage {
 	}
 	return out
 }
+
+func r13Order(seed uint64, n int) []int { return simrt.NewRand(seed ^ 0x6f72646572).Perm(n) }
